@@ -60,9 +60,11 @@ C01Row(i) ==
   \cup {Rej("antisym", i, j, -M(j, i), M(i, j)) : j \in {j \in Parsed : M(i, j) # -M(j, i)}}
   \cup (IF i \notin LawParsed THEN {} ELSE
           UNION {TriplesAt(i, j) : j \in {j \in LawParsed : M(i, j) # Sgn(RankObs[i] - RankObs[j])}})
-  \cup LET un == {j \in Parsed : (i \notin LawParsed \/ j \notin LawParsed) /\ M(i, j) # Sgn(RankAll[i] - RankAll[j])}
-       IN IF un = {} THEN {} ELSE {Rej("nontransitive-unlawful", i, 0, Cardinality(un), 0)}
+  \cup (LET un == {j \in Parsed : (i \notin LawParsed \/ j \notin LawParsed) /\ M(i, j) # Sgn(RankAll[i] - RankAll[j])}
+        IN IF un = {} THEN {} ELSE {Rej("nontransitive-unlawful", i, 0, Cardinality(un), 0)})
   \cup {Rej("history", i, j, M(i, j), Obs[i].cmps[j]) : j \in {j \in Parsed : Obs[i].cmps[j] # M(i, j)}}
+  \cup {Rej("history-process", i, j, M(i, j), Obs[i].cmpalt[j]) : j \in {j \in Parsed : Obs[i].cmpalt[j] # M(i, j)}}
+  \cup (IF Obs[i].okalt THEN {} ELSE {Rej("history-process", i, i, 1, 0)})
   \cup {Rej("strcmp", i, j, M(i, j), Obs[i].cmpstr[j]) : j \in {j \in Parsed : Obs[i].cmpstr[j] # M(i, j)}}
   \cup {Rej("build", i, j, 0, M(i, j)) : j \in {j \in Parsed : DS[j].base = DS[i].base /\ M(i, j) # 0}}
   \cup {Rej("mutated", i, i, 0, 1) : x \in {1} \cap {IF Obs[i].strsame THEN 0 ELSE 1}}
